@@ -497,6 +497,10 @@ func (s *backendSuite) runOp(ctx context.Context, b backend.Backend, t []string)
 		if err != nil {
 			return "stream err " + classify(err)
 		}
+		if v, ok := opts["slow"]; ok {
+			// slow=<ms>: the consumer starts reading only after that long (the stream's buffer fills up meanwhile)
+			time.Sleep(time.Duration(atoi(v)) * time.Millisecond)
+		}
 		var msgs []*proto.StreamRangeResponse
 		for m := range ch {
 			msgs = append(msgs, m)
@@ -1005,6 +1009,11 @@ func (s *backendSuite) do(t []string) string {
 		ident := opts["id"]
 		b2 := s.newBackend(ident)
 		cb := &campaignBackend{Backend: b2}
+		if v, ok := opts["followed"]; ok {
+			// followed=<rev>: the node has served reads as a FOLLOWER before it is elected: its revision syncer adopted the
+			// leader's read revision <rev> (some time ago - the store holds newer revisions by now)
+			b2.SetCurrentRevision(atou(v))
+		}
 		if opts["slowget"] == "1" {
 			cb.lock = &slowGetLock{Interface: b2.GetResourceLock(), d: 400 * time.Millisecond}
 		}
